@@ -1244,7 +1244,9 @@ class ParticleNode(SyntaxNodeBase):
         if not isinstance(value, Particle):
             raise TypeError(f"All particles must be a Particle. {value} given")
         self._particles.remove(value)
-        self._order.remove(value)
+        # a particle that was given through the particles setter as a set has no place in the order
+        if value in self._order:
+            self._order.remove(value)
 
     @property
     def _particles_sorted(self):
